@@ -181,12 +181,15 @@ def postings (ix : List (Token × List Id)) (t : Token) : List Id :=
 def indexAdd (ix : List (Token × List Id)) (id : Id) (tokens : List Token) : List (Token × List Id) :=
   tokens.foldl (fun ix t => AMap.set ix t (insertSorted id (postings ix t))) ix
 
+/-- one token of `TreeIndex.Remove` -/
+def indexRemoveStep (id : Id) (ix : List (Token × List Id)) (t : Token) : List (Token × List Id) :=
+  match AMap.get ix t with
+  | some l => AMap.set ix t (l.filter (fun y => decide (y ≠ id)))
+  | none => ix
+
 /-- `TreeIndex.Remove(v, tokens)` -/
 def indexRemove (ix : List (Token × List Id)) (id : Id) (tokens : List Token) : List (Token × List Id) :=
-  tokens.foldl (fun ix t =>
-    match AMap.get ix t with
-    | some l => AMap.set ix t (l.filter (fun y => decide (y ≠ id)))
-    | none => ix) ix
+  tokens.foldl (indexRemoveStep id) ix
 
 /-- `sortAndDiffTokens` on duplicate-free token lists: (added, removed) -/
 def diffTokens (before after : List Token) : List Token × List Token :=
@@ -231,10 +234,18 @@ deriving Repr
 
 def Layer.empty : Layer := ⟨[], [], [], [], false⟩
 
+/-- `FeaturesByID.FindLocationByID` of a feature: only points have one -/
+def pointOf (f : Feature) : Option Pt :=
+  match f.geom with
+  | .point p => some p
+  | _ => none
+
+/-- `MutableOverlayWorld.FindLocationByID`: the overlay's version of a feature shadows the base's, even
+if it has no location -/
 def Layer.loc (b : View) (l : Layer) (id : Id) : Option Pt :=
   match AMap.get l.feats id with
-  | some ⟨_, _, .point p⟩ => some p
-  | _ => b.loc id
+  | some f => pointOf f
+  | none => b.loc id
 
 /-- apply the layer's recorded modifications to a feature handed out by the base -/
 def Layer.wrap (l : Layer) (id : Id) (fv : FV) : FV :=
@@ -328,20 +339,24 @@ inductive Err where
   | partiallyApplied
 deriving DecidableEq, Repr
 
-/-- the index maintenance of `AddTag` for a feature that lives in the overlay -/
-def retagIndex (ix : List (Token × List Id)) (f : Feature) (tag : Tag) : List (Token × List Id) :=
-  let after := tokenForTag tag
-  match AMap.get f.tags tag.1 with
-  | some old =>
-    match tokenForTag (tag.1, old), after with
-    | some tb, some ta => if tb ≠ ta then indexAdd (indexRemove ix f.id [tb]) f.id [ta] else ix
-    | some tb, none => indexRemove ix f.id [tb]
-    | none, some ta => indexAdd ix f.id [ta]
-    | none, none => ix
-  | none =>
-    match after with
-    | some ta => indexAdd ix f.id [ta]
-    | none => ix
+/-- `sortAndDiffTokens(before, after)`, then `index.Remove(f, removed); index.Add(f, added)` — the index
+maintenance of `AddTag` / `RemoveTag` for a feature that lives in the overlay (after
+`fixes/C03-retokenise-on-tag-edit.patch`) and of `ModifiedFeatures.UpdateIndex` -/
+def reindex (ix : List (Token × List Id)) (id : Id) (before after : List Token) : List (Token × List Id) :=
+  indexAdd (indexRemove ix id (diffTokens before after).2) id (diffTokens before after).1
+
+def isPoint (f : Feature) : Bool :=
+  match f.geom with
+  | .point _ => true
+  | _ => false
+
+/-- whether `AddTag` on a feature that only lives in the base copies it into the overlay: the tag is
+searchable, or the feature is a point with no other tag (which is not indexed at all and becomes
+searchable with any tag) -/
+def copyOnAdd (f : Feature) (k : Key) : Bool := indexedKey k || (isPoint f && f.tags.isEmpty)
+
+/-- the same for `RemoveTag`: a point left with its location only stops being searchable -/
+def copyOnRemove (f : Feature) (k : Key) : Bool := indexedKey k || (isPoint f && f.tags.length == 1)
 
 /-- record a plain-tag modification (`ModifiedTags.ModifyOrAddTag` / `RemoveTag`) -/
 def modsSet (mods : List (Id × Mods)) (id : Id) (k : Key) (m : Mod) : List (Id × Mods) :=
@@ -357,25 +372,21 @@ def Layer.adopt (l : Layer) (f : Feature) : Layer :=
 def Layer.addTag (b : View) (l : Layer) (id : Id) (tag : Tag) : Except Err Layer :=
   match AMap.get l.feats id with
   | some f =>
-    .ok { l with index := retagIndex l.index f tag,
+    .ok { l with index := reindex l.index f.id (tokensFor f) (tokensFor { f with tags := tagSet f.tags tag }),
                  feats := AMap.set l.feats id { f with tags := tagSet f.tags tag } }
   | none =>
     match l.find b id with
     | none => .error .noFeature
     | some fv =>
-      if indexedKey tag.1 then .ok (l.adopt { fv.f with tags := tagSet fv.f.tags tag })
+      if copyOnAdd fv.f tag.1 then .ok (l.adopt { fv.f with tags := tagSet fv.f.tags tag })
       else .ok { l with mods := modsSet l.mods id tag.1 (.set tag.2) }
 
 /-- `MutableOverlayWorld.RemoveTag` -/
 def Layer.removeTag (b : View) (l : Layer) (id : Id) (k : Key) : Except Err Layer :=
   match AMap.get l.feats id with
   | some f =>
-    let ix := match AMap.get f.tags k with
-      | some old => (match tokenForTag (k, old) with
-        | some t => indexRemove l.index f.id [t]
-        | none => l.index)
-      | none => l.index
-    .ok { l with index := ix, feats := AMap.set l.feats id { f with tags := tagRemove f.tags k } }
+    .ok { l with index := reindex l.index f.id (tokensFor f) (tokensFor { f with tags := tagRemove f.tags k }),
+                 feats := AMap.set l.feats id { f with tags := tagRemove f.tags k } }
   | none =>
     match l.find b id with
     | none => .error .noFeature
@@ -383,7 +394,7 @@ def Layer.removeTag (b : View) (l : Layer) (id : Id) (k : Key) : Except Err Laye
       match AMap.get fv.f.tags k with
       | none => .ok l
       | some _ =>
-        if indexedKey k then .ok (l.adopt { fv.f with tags := tagRemove fv.f.tags k })
+        if copyOnRemove fv.f k then .ok (l.adopt { fv.f with tags := tagRemove fv.f.tags k })
         else .ok { l with mods := modsSet l.mods id k .del }
 
 /-- `NewModifiedFeaturesWithCopies`: referrers that only live in the base are copied into the overlay
@@ -416,12 +427,16 @@ def Layer.checkReferrers (b : View) (o : Oracle) (l : Layer) (f : Feature) (refe
   let bad := referrers.any (fun r => !validate (tmp.view b (tmp.loc b)) o r.f)
   (tmp.restore f.id (AMap.get l.feats f.id), bad)
 
+/-- the tokens `NewModifiedFeaturesWithCopies` records for the feature being replaced -/
+def existingTokens (l : Layer) (id : Id) : List Token :=
+  match AMap.get l.feats id with
+  | some e => tokensFor e
+  | none => []
+
 /-- `NewModifiedFeaturesWithCopies` + `ModifiedFeatures.Update` + `delete(m.tags, id)` -/
 def Layer.commit (l : Layer) (f : Feature) (referrers : List FV) : Layer :=
   let existing := AMap.get l.feats f.id
-  let tokens0 := match existing with
-    | some e => tokensFor e
-    | none => []
+  let tokens0 := existingTokens l f.id
   let inOverlay := referrers.filter (fun r => AMap.contains l.feats r.f.id)
   let lc := copyReferrers f.id l referrers
   -- Update: RemoveReferences
@@ -438,8 +453,7 @@ def Layer.commit (l : Layer) (f : Feature) (referrers : List FV) : Layer :=
     | none => rs) rs
   let rs := lc.2.foldl refsAdd rs
   -- UpdateIndex (tag tokens of referrers already in the overlay do not change)
-  let d := diffTokens tokens0 (tokensFor f)
-  let ix := indexAdd (indexRemove lc.1.index f.id d.2) f.id d.1
+  let ix := reindex lc.1.index f.id tokens0 (tokensFor f)
   let ix := lc.2.foldl (fun ix c => indexAdd ix c.id (tokensFor c)) ix
   -- MergeFrom / AddFeature(Clone)
   { lc.1 with feats := AMap.set lc.1.feats f.id f, refs := rs, index := ix, mods := AMap.erase lc.1.mods f.id }
@@ -517,8 +531,8 @@ def locOf (root : View) : List Layer → Id → Option Pt
   | [] => root.loc
   | l :: below => fun id =>
     match AMap.get l.feats id with
-    | some ⟨_, _, .point p⟩ => some p
-    | _ => locOf root below id
+    | some f => pointOf f
+    | none => locOf root below id
 
 def viewOf (root : View) (liveLoc : Id → Option Pt) : List Layer → View
   | [] => root
@@ -566,6 +580,12 @@ def Layer.step (b : View) (o : Oracle) (l : Layer) : Op → Layer × Option Err
     | .error e => (l, some e)
   | .merged cs => mergedApply b o l cs
 
+/-- a whole history on one world object: the final state and what every call answered -/
+def runOps (b : View) (o : Oracle) : Layer → List Op → Layer × List (Option Err)
+  | l, [] => (l, [])
+  | l, op :: rest =>
+    ((runOps b o (l.step b o op).1 rest).1, (l.step b o op).2 :: (runOps b o (l.step b o op).1 rest).2)
+
 def Store.step (o : Oracle) (s : Store) (op : Op) : Store × Option Err :=
   match s.layers with
   | [] => (s, some .noFeature)
@@ -604,18 +624,24 @@ def rootRefs (fs : List Feature) : List (Id × List Id) := fs.foldl refsAdd []
 
 def rootFeats (fs : List Feature) : List (Id × Feature) := fs.foldl (fun m f => AMap.set m f.id f) []
 
+def rootLoc (feats : List (Id × Feature)) (id : Id) : Option Pt :=
+  match AMap.get feats id with
+  | some f => pointOf f
+  | none => none
+
+def rootFind (feats : List (Id × Feature)) (id : Id) : Option FV :=
+  (AMap.get feats id).map fun f => ⟨f, resolve (rootLoc feats) f.geom⟩
+
+def rootSearchStep (feats : List (Id × Feature)) (t : Token) (acc : List Id) (id : Id) : List Id :=
+  match AMap.get feats id with
+  | some f => if (tokensFor f).contains t then insertSorted id acc else acc
+  | none => acc
+
 def rootView (fs : List Feature) : View :=
   let feats := rootFeats fs
-  let loc : Id → Option Pt := fun id => match AMap.get feats id with
-    | some ⟨_, _, .point p⟩ => some p
-    | _ => none
-  let find : Id → Option FV := fun id => (AMap.get feats id).map fun f => ⟨f, resolve loc f.geom⟩
   let rs := rootRefs fs
-  { find := find, hitFV := find, loc := loc,
-    search := fun t => (AMap.keys feats).foldl (fun acc id =>
-      match AMap.get feats id with
-      | some f => if (tokensFor f).contains t then insertSorted id acc else acc
-      | none => acc) [],
+  { find := rootFind feats, hitFV := rootFind feats, loc := rootLoc feats,
+    search := fun t => (AMap.keys feats).foldl (rootSearchStep feats t) [],
     refs := fun id => (dedup (closure rs refDepth id)).filter (fun r => AMap.contains feats r),
     ids := AMap.keys feats }
 
